@@ -221,3 +221,12 @@ def verify(prog, src):
         if kind is True and j + 1 < len(s) and lines[j + 1] == lines[i]:
             return False
     return True
+
+
+def verify_tokens_only(prog, src):
+    """The rendering lexes (reference) to the intended significant tokens; line scopes are not examined."""
+    toks, err = reflex.try_lex(src)
+    if err is not None:
+        return False
+    s = reflex.sig(toks)
+    return len(s) == len(prog.toks) and all(t.raw == raw and t.kind == kind for t, (kind, raw) in zip(s, prog.toks))
